@@ -24,6 +24,7 @@ from xfabsa.symeval import Evaluator, sym_array, Arr, Opaque, scalar, materialis
 
 EXHAUSTIVE = True
 RESCALED = ("find_omega_general", "find_omega_quart", "find_omega")
+TOOLS_AT_RESCALED = set()
 
 def sig_weighted(name):
     params, ret = SIG.get(name, (None, None))
@@ -126,6 +127,11 @@ def evaluate_side(mod, name, tau, fn=None, oracle=None, whole=0):
     different)"""
     params, ret = SIG[name]
     args = [scaled_arg(p, shp, w, tau) for (p, shp, w) in params]
+    if name in TOOLS_AT_RESCALED and mod.rel.endswith("tools.py"):
+        # laue's solver rescales g somewhere below its public name (no statement of its own to take away): tools is evaluated
+        # at the rescaled vector sin(theta) g/|g| instead, where the two must agree as functions of g
+        gr = N.ref("sin(twoth/2)*g/sqrt(g[0]*g[0]+g[1]*g[1]+g[2]*g[2])", {"g": args[0], "twoth": args[1]})
+        args[0] = gr if isinstance(gr, Arr) else materialise(gr)
     calls = []
 
     def pol(cname, cargs, ckw, node):
@@ -541,8 +547,13 @@ def run(ctx):
         SB.tree_diff(nt.body, nl.body, d)
         if name in RESCALED:
             if pre is None:
-                # laue no longer rescales: then it must equal tools outright
-                ctx.note("%s: no rescaling preamble in laue" % name)
+                # no rescaling statement in laue's own body: by value -- tools at sin(theta) g/|g| against laue at g
+                ctx.note("%s: no rescaling preamble in laue, compared at the rescaled vector" % name)
+                TOOLS_AT_RESCALED.add(name)
+                from xfabsa.poly import POSITIVE_SCALE_ATOMS, single_atom
+                at_ = single_atom(scalar(N.ref("sin(tw/2)", {"tw": Rat.atom("twoth")})))
+                if at_ is not None and at_ not in POSITIVE_SCALE_ATOMS:
+                    POSITIVE_SCALE_ATOMS.append(at_)       # 0 < 2 theta < pi on the whole domain: sin(theta) > 0
             else:
                 ev = Evaluator(lmod, inline=set())
                 g = sym_array("g_w", (3,))
